@@ -88,7 +88,7 @@ void harness(void)
    * later wait must still be able to collect the child: the status is not lost, the child
    * does not stay a zombie, nothing is reaped twice. */
   VP_ASSUME(!k.reaped && vp_c_dead_at[0] != VP_NEVER);
-  vp_faults_left = 1;
+  vp_faults_left = 2; /* e.g. waitpid interrupted twice in a row */
   vp_eintr_on = true;
   vp_hang_allowed = true;
   int r1 = reproc_wait(p, pick_timeout());
@@ -102,6 +102,8 @@ void harness(void)
                      r2 == vp_status_decode(vp_child_status(0)),
             "after a failed wait the exit status is lost, the child stays a zombie or is reaped twice");
   VP_ASSERT(C14, r2 >= 0 && p->status == r2, "after a failed wait a later wait does not reach the exited state");
+  VP_ASSERT(C07, r2 >= 0 && vp_c_state[0] == VP_C_REAPED,
+            "after a failed step a later wait/stop no longer ends when the child has exited");
   VP_ASSERT(C05, vp_c_reaps[0] == 1, "child not reaped exactly once");
   VP_COVER(r1 == -EINTR, "first wait interrupted");
   VP_COVER(r1 >= 0, "first wait succeeds");
@@ -112,10 +114,14 @@ void harness(void)
   int64_t t = t0;
   int want = ref_wait(&k, &t, tmo, deadline, &hangs);
   vp_hang_allowed = hangs;
+  vp_eintr_on = VP_F > 0;
   int r = reproc_wait(p, tmo);
-  VP_ASSERT(C08, !hangs, "wait returns although the child never exits and the timeout is infinite");
-  VP_ASSERT(C08, r == want, "wait result differs from the reference (status / timeout error)");
-  VP_ASSERT(C08, vp_T == t, "wait returns at a different time than timeout / deadline / child exit dictate");
+  bool faulted = vp_faults_left < VP_F; /* a call failed (EINTR included): wait may report that error */
+  VP_ASSERT(C08, !hangs || faulted, "wait returns although the child never exits and the timeout is infinite");
+  VP_ASSERT(C08, r == want || (faulted && r < 0 && r != REPROC_ETIMEDOUT),
+            "wait result differs from the reference (status / timeout error)");
+  VP_ASSERT(C08, faulted ? (hangs || vp_T <= t) : vp_T == t,
+            "wait returns at a different time than timeout / deadline / child exit dictate (an interrupted wait must not start over)");
   VP_ASSERT(C08, r != REPROC_ETIMEDOUT || (tmo >= 0 && vp_T - t0 >= tmo) ||
                      (tmo == REPROC_DEADLINE && deadline != -1 && vp_T >= deadline),
             "timeout error before the timeout (or deadline) has passed");
@@ -139,8 +145,11 @@ void harness(void)
   struct ref_result want = ref_stop(&k, t0, deadline, action, timeout);
   vp_hang_allowed = want.hangs;
 #if VP_MODE == 0
+  vp_eintr_on = VP_F > 0;
   int r = reproc_stop(p, stop);
-  VP_ASSERT(C07, r == want.ret, "stop returns something other than the reference (status / timeout / invalid)");
+  bool faulted = vp_faults_left < VP_F;
+  VP_ASSERT(C07, r == want.ret || (faulted && r < 0 && r != REPROC_ETIMEDOUT),
+            "stop returns something other than the reference (status / timeout / invalid / the error of a failed step)");
   VP_ASSERT(C01, r < 0 || (vp_c_state[0] == VP_C_REAPED && vp_c_reaps[0] == 1),
             "stop returns a status although the child has not been reaped exactly once");
   VP_ASSERT(C01, r < 0 || was_reaped || r == vp_status_decode(vp_child_status(0)),
@@ -167,20 +176,27 @@ void harness(void)
             "default policy terminates the child before the deadline (or without one)");
   VP_ASSERT(C05, !(was_reaped) || vp_c_reaps[0] == 1, "child reaped twice");
 #endif
-  VP_ASSERT(C07, !want.hangs, "stop returns although it has to wait forever");
+#if VP_MODE == 1
+  bool faulted = false;
+#endif
+  VP_ASSERT(C07, !want.hangs || faulted, "stop returns although it has to wait forever");
   VP_ASSERT(C15, !want.hangs, "destroy returns although the policy makes it wait forever");
-  VP_ASSERT(C07, vp_nsigs - nsig0 == want.nsig, "number of signals sent differs from the stop sequence");
+  VP_ASSERT(C07, faulted ? vp_nsigs - nsig0 <= want.nsig : vp_nsigs - nsig0 == want.nsig,
+            "number of signals sent differs from the stop sequence");
   VP_ASSERT(C15, vp_nsigs - nsig0 == want.nsig, "destroy sends other signals than the stop policy given at start");
   for (int i = 0; i < 3; i++) {
     if (i < want.nsig && nsig0 + i < VP_NSIG) {
-      VP_ASSERT(C07, vp_sig_no[nsig0 + i] == want.sig[i], "wrong signal (or wrong order) in the stop sequence");
-      VP_ASSERT(C07, vp_sig_at[nsig0 + i] == want.sig_at[i], "signal sent at the wrong time (timeout not respected)");
+      VP_ASSERT(C07, nsig0 + i >= vp_nsigs || vp_sig_no[nsig0 + i] == want.sig[i],
+                "wrong signal (or wrong order) in the stop sequence");
+      VP_ASSERT(C07, nsig0 + i >= vp_nsigs || vp_sig_at[nsig0 + i] == want.sig_at[i],
+                "signal sent at the wrong time (timeout not respected)");
       VP_ASSERT(C15, vp_sig_no[nsig0 + i] == want.sig[i] && vp_sig_at[nsig0 + i] == want.sig_at[i],
                 "destroy: signal or its time differs from the stop policy given at start");
       VP_ASSERT(C06, vp_sig_pid[nsig0 + i] == vp_c_pid[0], "signal sent to another pid");
     }
   }
-  VP_ASSERT(C07, vp_T == want.t_end, "stop ends at a different time than its timeouts and the child's exit dictate");
+  VP_ASSERT(C07, faulted ? (want.hangs || vp_T <= want.t_end) : vp_T == want.t_end,
+            "stop ends at a different time than its timeouts and the child's exit dictate (an interrupted step must not start over)");
   VP_ASSERT(C15, vp_T == want.t_end, "destroy ends at a different time than the policy dictates");
   VP_COVER(want.nsig == 2 && want.ret >= 0, "terminate then kill, child reaped");
   VP_COVER(want.ret == -ETIMEDOUT && want.nsig == 1, "every wait timed out after one signal");
